@@ -29,6 +29,16 @@ def series(case):
     return rng.integers(-9, 10, size=n).astype(np.float32)
 
 
+def pair(case):
+    """(x, y) of a convolution / correlation case.  With `lag` set the two are equal-length, overlapping windows of
+    ONE recording (views of the same buffer, `lag` samples apart) - an ordinary way to cross-correlate two stretches"""
+    if case.get("lag"):
+        n, lag = case["n"], case["lag"]
+        rec = series(dict(case, n=n + lag))
+        return rec[:n], rec[lag:lag + n]
+    return series(case), series(dict(case, n=case["m"], dseed=case["dseed"] + 1))
+
+
 def mk_ts(x):
     from sigpyproc.timeseries import TimeSeries
     from .c04 import mk_header
@@ -62,6 +72,10 @@ class C12(Prop):
             m = rng.choice((1, 2, 3, 5, n, rng.randint(1, n)))
             cases.append({"op": rng.choice(("fftconvolve", "correlate")), "n": n, "m": m,
                           "dkind": rng.choice(("int", "int", "const", "impulse")), "dseed": rng.randrange(1 << 30)})
+        for _ in range(12 if tier == "quick" else 80):
+            n = rng.choice((8, 31, 64, 100, 200))
+            cases.append({"op": "correlate", "n": n, "m": n, "lag": rng.choice((1, 3, n // 2, n - 1)),
+                          "dkind": rng.choice(("int", "impulse")), "dseed": rng.randrange(1 << 30)})
         for _ in range(40 if tier == "quick" else 300):
             cases.append({"op": "mspec", "n": rng.randint(1, 300), "dkind": rng.choice(("int", "dyn")),
                           "dseed": rng.randrange(1 << 30)})
@@ -98,7 +112,7 @@ class C12(Prop):
                 spec = np.asarray(fs.data)
                 return {"mspec": [float(v) for v in ps.data], "spec_re": [float(v) for v in spec.real],
                         "spec_im": [float(v) for v in spec.imag]}
-            y = series(dict(case, n=case["m"], dseed=case["dseed"] + 1))
+            x, y = pair(case)
             if op == "fftconvolve":
                 out = K.fftconvolve(x, y)
                 return {"out": [float(v) for v in out], "N": int(K.nb_fft_good_size(len(x) + len(y) - 1, True))}
@@ -150,7 +164,7 @@ class C12(Prop):
             if len(got) != len(want) or np.abs(got - want).max() > 1e-5 * (np.abs(want).max() + 1e-30):
                 return f"n={n}: amplitude spectrum is not the modulus of each Fourier bin"
             return None
-        y = series(dict(case, n=case["m"], dseed=case["dseed"] + 1)).astype(np.float64)
+        x, y = (v.astype(np.float64) for v in pair(case))
         m = len(y)
         got = np.array(obs["out"])
         if op == "fftconvolve":
@@ -174,8 +188,7 @@ class C12(Prop):
         if op == "rfft_ifft":
             return [f"C12 lens {obs['N']} {obs['N']}"]
         if op in ("fftconvolve", "correlate") and case["dkind"] in ("int", "const", "impulse"):
-            x = series(case)
-            y = series(dict(case, n=case["m"], dseed=case["dseed"] + 1))
+            x, y = pair(case)
             return [f"C12 {'conv' if op == 'fftconvolve' else 'corr'} {obs['N']} {len(x)} "
                     f"{' '.join(str(int(v)) for v in x)} {' '.join(str(int(v)) for v in y)}"]
         return []
